@@ -102,6 +102,9 @@ impl WakeFlag {
         CUR_WAKER.with(|w| *w.borrow_mut() = prev_waker);
         CURRENT.with(|c| c.set(prev));
         if r.is_pending() && regs == 0 && !self.is_set() {
+            if std::env::var_os("VNET_BREACH_PANIC").is_some() {
+                panic!("wake-up contract breach in {}", core::any::type_name::<F>());
+            }
             BREACHES.with(|b| {
                 let mut b = b.borrow_mut();
                 b.0 += 1;
@@ -131,7 +134,9 @@ impl WakeSlot {
     /// The source returned `Pending`: remember who to wake.
     pub fn register(&mut self, cx: &Context<'_>) {
         let (id, gen) = CURRENT.with(|c| c.get());
-        if CUR_WAKER.with(|w| w.borrow().as_ref().is_some_and(|w| w.will_wake(cx.waker()))) {
+        // same task = same `Arc<WakeFlag>` behind the waker (vtable addresses are not compared: they are not
+        // unique, and deliberately unstable under Miri)
+        if CUR_WAKER.with(|w| w.borrow().as_ref().is_some_and(|w| w.data() == cx.waker().data())) {
             REGS.with(|r| r.set(r.get() + 1));
             self.0 = Some((id, gen, cx.waker().clone()));
         } else {
